@@ -1,0 +1,109 @@
+//! Cooperative scheduler points.
+//!
+//! The engine calls [`block_until`] right before every blocking synchronisation
+//! operation (pager lock, page latch, job queue, task completion). While no
+//! scheduler is installed these calls are a single relaxed atomic load. A test
+//! harness may [`install`] a [`Scheduler`] that decides, at each point, which
+//! registered thread proceeds; the policy lives entirely in the harness.
+use std::sync::{
+    Arc, RwLock,
+    atomic::{AtomicBool, Ordering},
+};
+
+/// Sites at which the engine yields to the scheduler.
+pub mod site {
+    pub const PAGER_READ: u32 = 1;
+    pub const PAGER_WRITE: u32 = 2;
+    pub const READ_LATCH: u32 = 3;
+    pub const WRITE_LATCH: u32 = 4;
+    pub const FRAME_BYTES_MUT: u32 = 5;
+    pub const FRAME_BYTES: u32 = 6;
+    pub const QUEUE_PUSH: u32 = 7;
+    pub const QUEUE_POP: u32 = 8;
+    pub const QUEUE_WAIT: u32 = 9;
+    pub const JOB_WAIT: u32 = 10;
+}
+
+pub trait Scheduler: Send + Sync {
+    /// Preemption point; returns once `pred()` holds and the caller may run.
+    fn block_until(&self, site: u32, pred: &dyn Fn() -> bool);
+    /// Called by a parent thread before `thread::spawn`; returns a logical id.
+    fn alloc_thread(&self) -> usize;
+    /// First call of a spawned thread; returns once it is scheduled.
+    fn enter(&self, vid: usize);
+    /// Last call of a spawned thread (also when it unwinds).
+    fn exit(&self);
+    /// Whether the calling thread is currently under the scheduler's control.
+    fn controls_current_thread(&self) -> bool;
+}
+
+static ACTIVE: AtomicBool = AtomicBool::new(false);
+static SCHED: RwLock<Option<Arc<dyn Scheduler>>> = RwLock::new(None);
+
+fn get() -> Option<Arc<dyn Scheduler>> {
+    if !ACTIVE.load(Ordering::Acquire) {
+        return None;
+    }
+    SCHED.read().unwrap_or_else(|e| e.into_inner()).clone()
+}
+
+pub fn install(s: Arc<dyn Scheduler>) {
+    *SCHED.write().unwrap_or_else(|e| e.into_inner()) = Some(s);
+    ACTIVE.store(true, Ordering::Release);
+}
+
+pub fn uninstall() {
+    ACTIVE.store(false, Ordering::Release);
+    *SCHED.write().unwrap_or_else(|e| e.into_inner()) = None;
+}
+
+#[inline]
+pub fn block_until(site: u32, pred: impl Fn() -> bool) {
+    if let Some(s) = get() {
+        s.block_until(site, &pred);
+    }
+}
+
+#[inline]
+pub fn is_controlled() -> bool {
+    get().map(|s| s.controls_current_thread()).unwrap_or(false)
+}
+
+pub fn alloc_thread() -> usize {
+    get().map(|s| s.alloc_thread()).unwrap_or(usize::MAX)
+}
+
+/// Deregisters the thread when dropped (also on unwind).
+pub struct ExitGuard(bool);
+
+impl Drop for ExitGuard {
+    fn drop(&mut self) {
+        if self.0 {
+            if let Some(s) = get() {
+                s.exit();
+            }
+        }
+    }
+}
+
+pub fn enter(vid: usize) -> ExitGuard {
+    if vid == usize::MAX {
+        return ExitGuard(false);
+    }
+    match get() {
+        Some(s) => {
+            s.enter(vid);
+            ExitGuard(true)
+        }
+        None => ExitGuard(false),
+    }
+}
+
+/// Set when dropped; lets a waiter learn that a pool job ended (also by panic).
+pub struct DoneFlag(pub Arc<AtomicBool>);
+
+impl Drop for DoneFlag {
+    fn drop(&mut self) {
+        self.0.store(true, Ordering::SeqCst);
+    }
+}
